@@ -149,6 +149,33 @@ def check_sequence(seq, via_dir=False):
         shutil.rmtree(d, ignore_errors=True)
 
 
+def check_repeated_mention(seq):
+    """the first file of the sequence is named once more at the end: a path mentioned twice is
+    analysed twice and gets its verdict line twice (with repetition, says the quantifier)"""
+    d = tempfile.mkdtemp(prefix="c04r_")
+    try:
+        names = []
+        for i, cls in enumerate(seq):
+            nm = f"f{i}_{cls}.c"
+            with open(os.path.join(d, nm), "w") as fh:
+                fh.write(content(cls, nm))
+            names.append(nm)
+        args = names + [names[0]]
+        rc, out, err = run_cli(args, d)
+        if "Traceback" in err:
+            return f"internal exception (traceback) for arguments {args}: {err.strip().splitlines()[-1]}"
+        lines = verdict_lines(out)
+        want = sorted((nm, "Error" if cls == "error" else "OK") for nm, cls in zip(names, seq)) + \
+            [(names[0], "Error" if seq[0] == "error" else "OK")]
+        if sorted(lines) != sorted(want):
+            return f"arguments {args}: verdict lines {lines}, expected one per mention: {sorted(want)}"
+        if (rc == 0) != all(v == "OK" for _n, v in want):
+            return f"arguments {args}: exit status {rc}"
+        return None
+    finally:
+        shutil.rmtree(d, ignore_errors=True)
+
+
 def check_same_content_headers(order):
     """util.h (correct guard UTIL_H) and a byte-identical copy compat.h in one run: the copy
     has a wrong guard for its name, the original is clean"""
@@ -195,6 +222,12 @@ def op_search(task):
             cases += 1
             if m:
                 viol.append({"what": m, "task": {"op": "one", "seq": s, "via_dir": via}})
+    # a path mentioned twice
+    for s_ in [list(x) for n in (1, 2, 3) for x in itertools.product(classes[:3], repeat=n)]:
+        cases += 1
+        m = check_repeated_mention(s_)
+        if m:
+            viol.append({"what": m, "task": {"op": "repeated", "seq": s_}})
     # the verdict of a file comes from its own analysis: same bytes under two header names
     for order in ((0, 1), (1, 0)):
         cases += 1
@@ -270,7 +303,7 @@ def op_fatal_texts(task):
 
 def main():
     task = json.load(sys.stdin)
-    out = {"search": op_search, "one": op_one, "fatal_texts": op_fatal_texts, "two_headers": op_two_headers,
+    out = {"search": op_search, "one": op_one, "repeated": lambda t: {"violations": [m for m in [check_repeated_mention(t["seq"])] if m]}, "fatal_texts": op_fatal_texts, "two_headers": op_two_headers,
            "same_content": lambda t: {"violations": [m for m in [check_same_content_headers(tuple(t["order"]))] if m]}}[task["op"]](task)
     json.dump(out, sys.stdout)
 
